@@ -22,6 +22,8 @@
 (* so that DebuggerTrace.tla can replay the hook's lock-ordered event log through the very same    *)
 (* operators. The CPU is the index `ix` into the uninterrupted run R of DbgCpu (deterministic).    *)
 (*                                                                                                 *)
+(* "StepRacesMachineThread": a step releases the runner lock before it stores Stopped: the machine thread, which has checked *)
+(*   the breakpoints for the OLD pc, may execute the instruction at the new pc in between (a step sent while running).       *)
 (* "StepSwallowsTestEnd": next/stepIn/stepOut drop the runner's result (test failed / test ended).   *)
 (* "SetBreakpointsForgetsOtherFiles": setBreakpoints for one source file replaces the whole list.   *)
 (* "NextIgnoresCallDepth": next over a jsr stops as soon as pc = pc0 + 3, also inside a nested call.  *)
@@ -89,7 +91,8 @@ AMExec  == /\ MExecEn(s) /\ s' = MExec(R, s, Deviations)
            /\ UNCHANGED <<req, cl, nreq, lk>>
 
 (* client *)
-Allowed == CASE cl = "running" -> {"pause", "setBps", "probe"}
+(* "ClientStepsWhileRunning" is a scenario switch, not a defect: the client also sends steps while it believes the machine runs *)
+Allowed == CASE cl = "running" -> {"pause", "setBps", "probe"} \cup (IF "ClientStepsWhileRunning" \in Deviations THEN {"stepIn", "next"} ELSE {})
              [] cl = "stopped" -> {"continue", "stepIn", "next", "stepOut", "setBps", "inspect"}
              [] OTHER -> {}
 Send == /\ req.k = "none" /\ nreq < MaxReq
@@ -133,10 +136,13 @@ StepWant(kind, j) == CASE kind = "stepIn" -> {StepInT(R, j)}
                        [] kind = "next" -> {NextT(Prog, R, j)}
                        [] kind = "stepOut" -> IF UnspecOut(R, j) THEN j..Len(R) ELSE {StepOutT(R, j)}
 SStep     == /\ Held /\ Idle /\ req.k \in {"stepIn", "next", "stepOut"} /\ ~SEnds(R, s, Deviations)
-             /\ s' = SExec(Prog, R, s, req.k, Deviations)
-             /\ g' = [g EXCEPT !.halt = NoHalt, !.stepFrom = s.ix, !.stepWant = StepWant(req.k, s.ix),
-                               !.swallowed = @ \/ AtEnd(R, s.ix)]              \* the uninterrupted run ends here; this step does not
-             /\ UNCHANGED <<req, cl, nreq, lk>>
+             /\ LET sx == SExec(Prog, R, s, req.k, Deviations)
+                    gx == [g EXCEPT !.halt = NoHalt, !.stepFrom = s.ix, !.stepWant = StepWant(req.k, s.ix),
+                                    !.swallowed = @ \/ AtEnd(R, s.ix)] IN         \* the uninterrupted run ends here; this step does not
+                IF "StepRacesMachineThread" \in Deviations
+                THEN s' = sx /\ g' = gx /\ UNCHANGED <<req, lk>>                \* the runner lock is released between the step and the store of Stopped
+                ELSE s' = PSet(PRead(R, sx)) /\ g' = GStop(gx, s') /\ Done     \* one critical section (the runner write lock is kept)
+             /\ UNCHANGED <<cl, nreq>>
 SStepEnd  == /\ Held /\ Idle /\ req.k \in {"stepIn", "next", "stepOut"} /\ SEnds(R, s, Deviations)
              /\ s' = SEnd(s) /\ Done /\ g' = [g EXCEPT !.halt = NoHalt] /\ UNCHANGED <<cl, nreq>>
 SPRead    == /\ Held /\ s.sp = "pread" /\ s' = PauseNow(s)
